@@ -26,7 +26,10 @@ fn hll_len_ok_with(ctx: &Ctx, s: &HllSketch, what: &str, n: u64, replay: &dyn Fn
     let want = match st.mode {
         0 => 8 + 4 * c,
         1 => 12 + 4 * c,
-        _ => 40 + spec_hll::reg_bytes(st.tgt, st.lg_k) + 4 * st.aux.as_ref().map(|a| a.len()).unwrap_or(0),
+        // one aux pair per register that does not fit cur_min + 0..=14, no more (an aux map that
+        // keeps entries for registers that fit four bits again makes the image grow)
+        _ if st.tgt == 4 => 40 + spec_hll::reg_bytes(st.tgt, st.lg_k) + 4 * st.registers.iter().filter(|&&v| v >= st.cur_min + 15).count(),
+        _ => 40 + spec_hll::reg_bytes(st.tgt, st.lg_k),
     };
     if len != want {
         ctx.violation(&format!("hll{}.size.stream.mode{}", st.tgt, st.mode), &format!("{what}: after {n} items the image is {len} bytes, mode/lg_k/aux dictate {want}"), replay());
